@@ -283,6 +283,48 @@ func (w *World) rewardHeightPanics(fn *ssa.Function) bool {
 	return found
 }
 
+// rewardHeightPanicHelper: fn is an unexported helper that does nothing but panic,
+// and every call of it sits in a method of Reward behind nothing but comparisons
+// of the record's height with the block height — the same construct as
+// rewardHeightPanics with the panic statement moved into a helper.
+func (w *World) rewardHeightPanicHelper(fn *ssa.Function) bool {
+	if fn.Parent() != nil || (fn.Object() != nil && fn.Object().Exported()) || len(fn.Blocks) != 1 {
+		return false
+	}
+	if _, ok := lastInstr(fn.Blocks[0]).(*ssa.Panic); !ok {
+		return false
+	}
+	cs := w.nodeCallers(fn)
+	if len(cs) == 0 {
+		return false
+	}
+	for _, c := range cs {
+		caller := c.Caller
+		if c.Site == nil || caller.Signature.Recv() == nil {
+			return false
+		}
+		n, _ := deref(caller.Signature.Recv().Type()).(*types.Named)
+		if n == nil || n.Obj().Name() != "Reward" || n.Obj().Pkg() == nil || !strings.HasSuffix(n.Obj().Pkg().Path(), "/ctrlers/stake") {
+			return false
+		}
+		nCond := 0
+		for _, d := range caller.Blocks {
+			ifi, ok := lastInstr(d).(*ssa.If)
+			if !ok || condEdge(ifi, c.Site.Block()) == 0 {
+				continue
+			}
+			nCond++
+			if !reRewardHeightCmp.MatchString(w.Canon(ifi.Cond)) {
+				return false
+			}
+		}
+		if nCond == 0 {
+			return false
+		}
+	}
+	return true
+}
+
 // failStopHelper: fn is an unexported helper reached only from RigoApp.BeginBlock /
 // EndBlock (or their function literals), and each of its panics raises an error
 // value it received as a parameter — the block handlers' deliberate fail-stop,
@@ -340,7 +382,7 @@ func p1(w *World, r *Report, reach *Reach, scope []*ssa.Function) {
 			} else if via, ok := w.failStopHelper(fn); ok {
 				// a helper that only the block handlers' fail-stop uses, panicking with the error it was handed
 				r.OK("P-1", via+":panic", "explicit panic excepted: "+c09PanicExceptions[via+":panic"], sites...)
-			} else if w.rewardHeightPanics(fn) {
+			} else if w.rewardHeightPanics(fn) || w.rewardHeightPanicHelper(fn) {
 				// keyed by what is tested, not by where: the reward record's height against the block height
 				r.OK("P-1", key, "explicit panic excepted: "+c09PanicExceptions["stake.(*Reward).Withdraw:panic"], sites...)
 			} else {
